@@ -543,7 +543,8 @@ def demand_source_stream(chk, n):
 
 def run(chk):
     from props import c15_cs
-    chk.rule = RULE + ' ' + c15_cs.RULE_CS
+    from props import c15_ssim
+    chk.rule = RULE + ' ' + c15_cs.RULE_CS + ' ' + c15_ssim.RULE_SS
     chk.trusted += ['single-stage network NW1 (coq/Sim/Single.v) is an instance of the simulator model Sim/Model.v, which is tied to /repo by the C06 correspondence; here additionally by exact comparison of IL / on-order / cost trajectories on generated single-stage instances',
                     'statistical stream: NumPy generators, batch-means normal approximation — search only, never a proof']
     chk.assume += ['ergodic convergence of time averages and the distributional assumptions about NumPy samples are not theorems about code',
@@ -585,6 +586,12 @@ def run(chk):
     # pathwise Clark-Scarf recursion (Sim/CS*.v, C15_serial_clark_scarf): checked period by period on the implementation, exact
     from props import c15_cs
     c15_cs.clark_scarf_stream(chk, 50 if quick else 400); lap('clark-scarf')
+    # expectation step for serial systems (Sim/SerialExp*.v: E[period cost] = SSM.topdown): every demand sequence of a small pmf simulated and weighted, exact
+    from props import c15_serialexp
+    c15_serialexp.serial_expectation_stream(chk, 5 if quick else 40); lap('serial-expectation')
+    # (s,S) stage = the chain of ss.py (Sim/SSim*.v): pathwise, chain step, exact expectation, long-run value within the proved bound
+    from props import c15_ssim
+    c15_ssim.sS_stage_stream(chk, 50 if quick else 500); lap('sS-stage')
     statistical(chk, 6000 if quick else 40000, 3 if quick else 10); lap('statistical')
     if (chk.broken or chk.mismatches) and not chk.fails:
         for _ in range(10 * n):
@@ -601,6 +608,12 @@ def replay(chk, rp):
     c = rp['case']
     if c.get('stream') == 'statistical':
         print('statistical case: re-run ./check C15 --tier quick with the same seed to reproduce'); return
+    if c.get('kind') in ('sS-pathwise', 'sS-expectation'):
+        from props import c15_ssim
+        c15_ssim.replay_sS_stage(chk, c); chk.case(c, True); return
+    if c.get('stream') == 'serial-expectation' or c.get('kind') == 'serial-expectation':
+        from props import c15_serialexp
+        print('serial-expectation case: re-evaluated'); c15_serialexp.replay_case(chk, c) if hasattr(c15_serialexp, 'replay_case') else print('re-run ./check C15 with the same seed (deterministic, exact)'); return
     if 'S_loc' in c and 'chain' in c and c.get('stream') is None:
         from props import c15_cs
         c15_cs.replay_clark_scarf(chk, c); chk.case(c, True); return
